@@ -1,5 +1,6 @@
 import TypifyModel.Proofs.C11
 import TypifyModel.Proofs.C11Findings
+import TypifyModel.Proofs.C11Templates
 open TypifyModel.C11
 #print axioms base_fromstr_eq_de
 #print axioms tryfrom_eq_fromstr
@@ -15,3 +16,7 @@ open TypifyModel.C11N
 #print axioms datetime_fromstr_coherent
 #print axioms fallback_is_string
 #print axioms native_formats_coherent_full_false
+#print axioms TypifyModel.C11T.display_templates_forward
+#print axioms TypifyModel.C11T.fromstr_templates_known
+#print axioms TypifyModel.C11T.tryfrom_string_templates_parse
+#print axioms TypifyModel.C11T.template_counts
